@@ -5,6 +5,7 @@ use crate::resp::{self, R};
 use std::collections::{BTreeMap, BTreeSet, VecDeque};
 
 pub mod cmds;
+pub mod conn;
 pub mod glob;
 pub mod streams;
 
